@@ -336,5 +336,29 @@ def run(prog, rep, tier='quick', config='default'):
                 else:
                     rep.ok('R2d', 'specified-loss-always-validated-or-forced', fn=val.name,
                            detail='every non-error path through the specified-loss branch passes the discrepancy check or the force==true edge')
+        # R2e: the force marker influences nothing but the discrepancy check
+        readers = []
+        for fn in prog.product_fns():
+            if not fn.name.startswith('portfolio::bookkeeping::') and not fn.name.startswith('portfolio::summary::'):
+                continue
+            for b in fn.blocks.values():
+                for s2 in b['stmts']:
+                    for pl in fn.stmt_sources(s2):
+                        if any(of.endswith('model::tx::SFLInput') and fl == 'force' for of, fl in mir.place_fields(pl)):
+                            readers.append((fn, s2))
+                tm = b['term']
+                if tm and tm['t'] == 'switch' and is_place(tm['discr']) and any(of.endswith('model::tx::SFLInput') and fl == 'force' for of, fl in mir.place_fields(tm['discr']['pl'])):
+                    readers.append((fn, tm))
+        bad = [(fn, n2) for (fn, n2) in readers if fn.name != val.name]
+        # summary re-emits rows with an explicit (forced) loss: constructing SFLInput is not a read
+        if bad:
+            fn, n2 = bad[0]
+            rep.violation('R2e', 'force-only-affects-the-discrepancy-check', where=fn.where(n2), fn=fn.name,
+                          detail='SFLInput.force is consulted in %s: the force marker must only switch off the 0.001 discrepancy check (e.g. a declared loss on a sale '
+                                 'without a loss is rejected whether forced or not)' % fn.name)
+        elif readers:
+            rep.ok('R2e', 'force-only-affects-the-discrepancy-check', fn=val.name, detail='%d read(s) of SFLInput.force in the bookkeeping, all in the validation function' % len(readers))
+        else:
+            rep.violation('R2e', 'anchor-lost:force-reads', fn=val.name, detail='anchor lost: no read of SFLInput.force in the bookkeeping')
         if hits == 0:
             rep.violation('R2d', 'anchor-lost:tolerance-comparison', fn=val.name, detail='anchor lost: comparison of |computed - specified| with a Decimal constant')
